@@ -2,7 +2,7 @@
 From Coq Require Import NArith List.
 From DV Require Import Base.Outcome Base.Bytes Base.Names Base.PName C02.Gen C02.Model
   C02.ProofsBasic C02.ProofsClone C02.ProofsRun C02.ProofsName C02.ProofsComp C02.ProofsStatic C02.ProofsHash C02.ProofsTop
-  C02.ProofsLayout C02.ProofsRead C02.ProofsWrite C02.ProofsBuild C02.ProofsTotal C02.ProofsX C02.SchemaModel C02.ProofsSchema C02.ProofsGrow C02.ProofsReuse C02.ProofsOpt C02.ProofsCount.
+  C02.ProofsLayout C02.ProofsRead C02.ProofsWrite C02.ProofsBuild C02.ProofsTotal C02.ProofsX C02.SchemaModel C02.ProofsSchema C02.ProofsGrow C02.ProofsReuse C02.ProofsOpt C02.ProofsCount C02.ProofsRaw.
 From DV Require C05.Schema C05.ProofsB C05.Model C05.OptModel.
 Import ListNotations.
 Local Open Scope N_scope.
@@ -349,3 +349,68 @@ Print Assumptions C02_count_run_is_arith.
 Theorem C02_section_trait_push_is_own_push : section_trait_push_is_own_push = true.
 Proof. reflexivity. Qed.
 Print Assumptions C02_section_trait_push_is_own_push.
+
+(* HashCompressor over a hashbrown RawTable, from what the crate guarantees:
+   buckets with control tags (TagsOK: the tag of a full bucket is the tag of
+   its element's hash, the hash being |e| e.hash(message, hasher)), holding
+   exactly the entries (TableOf), and a probe sequence that visits every full
+   bucket whose element hashes like the query (ProbeVisits) - for any hasher H,
+   any tag function, any bucket layout and probe order.  Then RawTable::find
+   (raw_find: tag filter, then HashEntry::eq, first match) returns what the
+   model's list walk returns, in every reachable state ... *)
+Theorem C02_raw_find_reachable : forall c ops s0 s a ws H tagf slots order l pos,
+  init c = Some s0 -> Forall wf_op ops -> run_acc c s0 acc0 ops = (s, a, ws) -> all_alive ws ->
+  let m := w_buf (b_w s) in let ml := mlen (w_buf (b_w s)) in
+  TableOf slots (w_hash (b_w s)) -> TagsOK H tagf m ml slots ->
+  ProbeVisits H m ml slots order (key_hash H l pos) ->
+  res_head (raw_find slots order (tagf (key_hash H l pos)) (eq_entry m ml l pos)) =
+  hash_find m ml (w_hash (b_w s)) l pos.
+Proof. exact raw_find_reachable. Qed.
+Print Assumptions C02_raw_find_reachable.
+
+(* ... and so does the whole right-to-left walk, hence append_compressed_name
+   writes the same labels and the same pointer. *)
+Theorem C02_raw_walk_reachable : forall c ops s0 s a ws H tagf slots order_of,
+  init c = Some s0 -> Forall wf_op ops -> run_acc c s0 acc0 ops = (s, a, ws) -> all_alive ws ->
+  let m := w_buf (b_w s) in let ml := mlen (w_buf (b_w s)) in
+  TableOf slots (w_hash (b_w s)) -> TagsOK H tagf m ml slots ->
+  (forall qh, ProbeVisits H m ml slots (order_of qh) qh) ->
+  forall rl pos, raw_walk H tagf m ml slots order_of rl pos = hash_walk m ml (w_hash (b_w s)) rl pos.
+Proof. exact raw_walk_reachable. Qed.
+Print Assumptions C02_raw_walk_reachable.
+
+Theorem C02_raw_acn_reachable : forall c ops s0 s a ws H tagf slots order_of n,
+  init c = Some s0 -> Forall wf_op ops -> run_acc c s0 acc0 ops = (s, a, ws) -> all_alive ws ->
+  let w := b_w s in
+  TableOf slots (w_hash w) -> TagsOK H tagf (w_buf w) (mlen (w_buf w)) slots ->
+  (forall qh, ProbeVisits H (w_buf w) (mlen (w_buf w)) slots (order_of qh) qh) ->
+  hash_acn c n w =
+  match raw_walk H tagf (w_buf w) (mlen (w_buf w)) slots order_of (rev n) hash_root_pos with
+  | Ok (position, rest) =>
+      wbind (hash_write c (rev rest) position w) (fun w1 =>
+        if position =? hash_root_pos then write_root c w1 else write_ptr c hash_ptr_tag position w1)
+  | Panic site => WPanic site
+  | _ => WFuel
+  end.
+Proof. exact raw_acn_reachable. Qed.
+Print Assumptions C02_raw_acn_reachable.
+
+(* non-vacuity: a reachable three-entry table in eight buckets with concrete
+   hasher and tags meets all premises, and a.B is found through the buckets *)
+Example C02_raw_table_nonvacuous :
+  match ex_state with
+  | Some (s, a, ws) =>
+      w_buf (b_w s) = ex_m /\ w_hash (b_w s) = [(12, 14); (14, 65535); (21, 14)] /\
+      TableOf ex_slots (w_hash (b_w s)) /\
+      TagsOK ex_H ex_tagf ex_m (mlen ex_m) ex_slots /\
+      (forall qh, ProbeVisits ex_H ex_m (mlen ex_m) ex_slots (seq 0 (length ex_slots)) qh) /\
+      raw_walk ex_H ex_tagf ex_m (mlen ex_m) ex_slots (fun _ => seq 0 (length ex_slots)) (rev [[97]; [66]]) hash_root_pos = Ok (12, []) /\
+      (ex_tg (12, 14), ex_tg (14, 65535), ex_tg (21, 14)) = (112, 98, 114)
+  | None => False
+  end.
+Proof. exact raw_table_example. Qed.
+
+(* non-vacuity of C02_typed_options_reread for the option rows the harness
+   pushes raw (edns-client-subnet, Extended DNS Error, CHAIN, DAU, EXPIRE) *)
+Example C02_typed_options_nonvacuous : Forall wf_typed ex_opts /\ ~ wf_typed (8, [C05.Schema.VNum 1; C05.Schema.VNum 23; C05.Schema.VNum 0; C05.Schema.VBytes [192; 0; 3]]).
+Proof. split; [exact ex_opts_wf|exact ex_subnet_bad]. Qed.
